@@ -24,6 +24,12 @@ CLAIMED.update({
  "C09": C("property-based testing: generated graphs; oracle = Warshall closure, mutual-reachability classes, forest edge count, propagation 2-colouring",
           "Random directed/undirected multigraphs in 8 encodings; kosaraju_scc/tarjan_scc/TarjanScc, connected_components, has_path_connecting, is_cyclic_*, is_bipartite_undirected, toposort (fresh and reused DfsSpace) and condensation compared with brute-force definitions.",
           "the Warshall/closure helpers in harness/src/agraph.rs", "DESIGN.md section 5, C09"),
+ "C10": C("property-based testing: generated weighted graphs; oracle = fixpoint distances and a dynamic programme over walks",
+          "Random non-negative weighted multigraphs in 10 encodings x 4 cost types; dijkstra (with and without goal), astar (goal sets; zero / exact / random admissible-inconsistent heuristics) and k_shortest_path compared with independent exact oracles.",
+          "the fixpoint relaxation in harness/src/agraph.rs and the k-walk DP in props/c10.rs", "DESIGN.md section 5, C10"),
+ "C11": C("property-based testing: generated graphs with negative costs incl. a dense-negative-DAG class; oracle = exact i64 fixpoint Bellman-Ford from every source",
+          "bellman_ford, spfa, floyd_warshall, floyd_warshall_path and find_negative_cycle: verdicts, distances, sentinel values, predecessor trees / prev matrices and returned cycles compared with the exact oracle on 10 encodings and 5 cost types.",
+          "the fixpoint relaxation in harness/src/agraph.rs", "DESIGN.md section 5, C11"),
 })
 PLANNED = {}
 
